@@ -171,13 +171,21 @@ impl CompressionCodecState {
 							input = &input[written..];
 							self.output_vec.resize(self.output_vec.len() * 2, 0);
 						}
+						bzip2::Status::FinishOk => {
+							// This is what bzip2 answers to `Finish` as long as the stream is
+							// not complete: there is more to write once there is room for it.
+							input = &input[written..];
+							if compress.total_out() as usize == self.output_vec.len() {
+								self.output_vec.resize(self.output_vec.len() * 2, 0);
+							}
+						}
 						bzip2::Status::FlushOk | bzip2::Status::RunOk | bzip2::Status::Ok => {
 							return Err(error(
 								"Bzip2",
 								&format_args!("got unexpected status from bzip2: {status:?}"),
 							));
 						}
-						bzip2::Status::FinishOk | bzip2::Status::StreamEnd => {
+						bzip2::Status::StreamEnd => {
 							assert_eq!(input.len(), written);
 							*len = compress.total_out() as usize;
 							break;
